@@ -59,6 +59,7 @@ type wireCluster struct {
 	stallGate chan struct{}
 	stalled   chan struct{}
 	stallDone chan struct{}
+	prodMax   int16  // > 0: the brokers advertise Produce up to this version only (old brokers: v3 / v4)
 	stallRest string // what happened to the rest of the stalled request: "eof" (the client had given up) / "delivered"
 }
 
@@ -191,8 +192,16 @@ func (w *wireCluster) serveOne(broker int32, conn *wireConn, ver int16, corr int
 		switch m := msg.(type) {
 		case *apiversions.Request:
 			w.fc.Lock()
-			res = &apiversions.Response{ApiKeys: w.fc.Advertised(broker)}
+			keys := append([]apiversions.ApiKeyResponse(nil), w.fc.Advertised(broker)...)
 			w.fc.Unlock()
+			if w.prodMax > 0 {
+				for i := range keys {
+					if keys[i].ApiKey == 0 && keys[i].MaxVersion > w.prodMax {
+						keys[i].MaxVersion = w.prodMax
+					}
+				}
+			}
+			res = &apiversions.Response{ApiKeys: keys}
 		case *metadata.Request:
 			w.fc.Lock()
 			res = w.fc.MetadataAnswer(append([]string{}, m.TopicNames...), m.TopicNames == nil)
@@ -207,6 +216,20 @@ func (w *wireCluster) serveOne(broker int32, conn *wireConn, ver int16, corr int
 			return false
 		}
 		if res == nil {
+			return true
+		}
+		if pr, ok := res.(*produce.Response); ok && ver <= 8 {
+			// the answer to a produce request is encoded here, field by field from the Kafka protocol description — not
+			// with the library's encoder, whose version tags are the ones its decoder uses
+			if _, err := conn.Write(encodeProduceResponse(ver, corr, pr)); err != nil {
+				return false
+			}
+			// net.Pipe: the write returns when the client has read every byte — the answer was delivered
+			if len(pr.Topics) == 1 && len(pr.Topics[0].Partitions) == 1 {
+				w.f.mu.Lock()
+				kafka.VerifWriterEmit("Br.Delivered", pr.Topics[0].Topic, int(pr.Topics[0].Partitions[0].Partition))
+				w.f.mu.Unlock()
+			}
 			return true
 		}
 		if err := protocol.WriteResponse(conn, ver, corr, res); err != nil {
@@ -304,4 +327,54 @@ func joinKeys(keys []string) string {
 		s += "," + k
 	}
 	return s
+}
+
+// encodeProduceResponse: Produce response v0..v8 (none of them flexible) as the protocol describes it:
+// header = size int32, correlation id int32; body = [responses] (topic string, [partitions] (index int32, error_code
+// int16, base_offset int64, v2+: log_append_time int64, v5+: log_start_offset int64, v8+: [record_errors] (batch_index
+// int32, message nullable string), error_message nullable string)), v1+: throttle_time_ms int32.
+func encodeProduceResponse(ver int16, corr int32, r *produce.Response) []byte {
+	var b []byte
+	i16 := func(v int16) { b = binary.BigEndian.AppendUint16(b, uint16(v)) }
+	i32 := func(v int32) { b = binary.BigEndian.AppendUint32(b, uint32(v)) }
+	i64 := func(v int64) { b = binary.BigEndian.AppendUint64(b, uint64(v)) }
+	str := func(s string) { i16(int16(len(s))); b = append(b, s...) }
+	nstr := func(s string) {
+		if s == "" {
+			i16(-1)
+			return
+		}
+		str(s)
+	}
+	i32(0) // size, patched below
+	i32(corr)
+	i32(int32(len(r.Topics)))
+	for _, t := range r.Topics {
+		str(t.Topic)
+		i32(int32(len(t.Partitions)))
+		for _, p := range t.Partitions {
+			i32(p.Partition)
+			i16(p.ErrorCode)
+			i64(p.BaseOffset)
+			if ver >= 2 {
+				i64(p.LogAppendTime)
+			}
+			if ver >= 5 {
+				i64(p.LogStartOffset)
+			}
+			if ver >= 8 {
+				i32(int32(len(p.RecordErrors)))
+				for _, e := range p.RecordErrors {
+					i32(e.BatchIndex)
+					nstr(e.BatchIndexErrorMessage)
+				}
+				nstr(p.ErrorMessage)
+			}
+		}
+	}
+	if ver >= 1 {
+		i32(r.ThrottleTimeMs)
+	}
+	binary.BigEndian.PutUint32(b[:4], uint32(len(b)-4))
+	return b
 }
